@@ -454,6 +454,8 @@ def _option_origins(h):
             o = _origin_of(n.iter, org)
             at[id(n)] = o
             if o is None:
+                if len(_origins_used(n.iter, org)) > 1 or any(isinstance(x, ast.Name) and x.id in org.mixed for x in ast.walk(n.iter)):
+                    org.mixed.update(x.id for x in ast.walk(n.target) if isinstance(x, ast.Name) and x.id not in org)
                 continue
             for x in ast.walk(n.target):
                 if isinstance(x, ast.Name):
